@@ -852,6 +852,7 @@ public:
         if (doOptimize(true, start)) doOptimize(false, start);
         break;
       case 2: // clone after init, run the clone
+      case 5:
         doClone();
         doOptimize(true, start);
         break;
